@@ -10,19 +10,23 @@ from .vlib import COQ, Check, ImplTimeout, cps, uncps, with_timeout
 
 PID = "C06"
 CLAIM = dict(
-    text="Coq theorems over executable models (in an explicit exception monad) of quote_header_value / unquote_header_value, "
-         "dump_header / parse_list_header (with urllib's parse_http_list) / parse_dict_header, dump_options_header / "
-         "parse_options_header (RFC 2231 charset, continuation and percent decoding included), HeaderSet, ETags.to_header / "
-         "parse_etags, Range / ContentRange / IfRange to_header and their parsers, dump_age / parse_age, CSP and the typed "
-         "cache-control properties: parse(dump v) = v over exactly the property's domains (each a boolean predicate with an "
-         "inhabitant). The token set, every regex text and class table, the RFC 2231 charset list, the Digest quoting key set and "
-         "is_byte_range_valid are regenerated from the source on every run; the models are compared with werkzeug on ~60k cases per "
-         "quick run and impl-level round-trip and normal-form oracles run on the same values.",
+    text="39 Coq theorems (all closed under the global context) over executable models, in an explicit exception monad, of "
+         "quote_header_value / unquote_header_value, dump_header / parse_list_header (with urllib's parse_http_list) / parse_dict_header, "
+         "dump_options_header / parse_options_header (RFC 2231 charset, continuation and percent decoding included), HeaderSet, "
+         "ETags.to_header / parse_etags, Range / ContentRange to_header and their parsers, dump_age / parse_age, CSP, the typed "
+         "cache-control properties, base64 with Authorization Basic and token schemes, and the HTTP-date field codec: "
+         "parse(dump v) = v over exactly the property's domains (each a boolean predicate with an inhabitant), the normal-form family "
+         "(full for quote / list / set, refuted + partial for dicts, partial for ETags and options), one refutation kept as a known "
+         "finding (unordered multi-ranges). The token set, every regex text and class table, the RFC 2231 charset list, the cache-control "
+         "property table and is_byte_range_valid are regenerated from the source on every run; the models are compared with werkzeug "
+         "on ~85k cases per quick run and impl-level round-trip and normal-form oracles run on the same values.",
     note="Trusted: Coq kernel; translator tools/c06.py; extraction + driver; hand-written matchers for the pinned regexes and for "
-         "urllib.request.parse_http_list / urllib.parse.unquote (validated differentially); str.lower modelled on Latin-1 "
-         "(keys/units outside it are exercised by the harness only); Python's 4300-digit int<->str limit is part of the int model; "
-         "dates: fixed-width field codec proved, calendar arithmetic (email.utils / datetime) is a Section contract; frozenset "
-         "iteration order of ETags is abstracted (results compared as sets).",
+         "urllib.request.parse_http_list / urllib.parse.unquote / binascii.a2b_base64 (validated differentially); str.lower on Latin-1 and "
+         "str.title on ASCII (keys/units/schemes outside them are exercised by the harness only); Python's 4300-digit int<->str limit is "
+         "part of the int model (round trips are stated as: whenever the serialiser returns, the parser inverts it); dates: the "
+         "fixed-width field codec is proved, calendar arithmetic (email.utils / datetime) is a Section contract checked by the harness; "
+         "frozenset iteration order of ETags is abstracted (results compared as sets). Not proved (harness oracles only): parameter "
+         "auth schemes incl. the Digest quoting rule, If-Range.",
     design="6/C06")
 
 PINNED = {
@@ -244,6 +248,34 @@ def gen() -> None:
     if len(digest_keys) != 1:
         raise px.Unsupported("Digest quoting key set not found")
 
+    # T1: the typed cache-control properties (key, empty, type) of every class
+    ccmod = px.load("datastructures/cache_control.py")
+    cc_props = []
+    for cname in ("_CacheControl", "RequestCacheControl", "ResponseCacheControl"):
+        for node in px.find_class(ccmod, cname).body:
+            val = node.value if isinstance(node, (ast.Assign, ast.AnnAssign)) else None
+            if isinstance(val, ast.Call) and isinstance(val.func, ast.Name) and val.func.id == "cache_control_property":
+                if len(val.args) != 3:
+                    raise px.Unsupported(f"cache_control_property call shape changed in {cname}")
+                key, empty = px.const(val.args[0]), px.const(val.args[1])
+                ty = ast.unparse(val.args[2])
+                if ty not in ("bool", "int", "None") or empty not in (None, True):
+                    raise px.Unsupported(f"cache_control_property({key!r}, {empty!r}, {ty}) not modelled")
+                cc_props.append((key, 1 if empty is True else 0, {"bool": 0, "int": 1, "None": 2}[ty]))
+    if len(cc_props) < 15:
+        raise px.Unsupported(f"only {len(cc_props)} cache-control properties found")
+    getter = ast.unparse(px.find_def(px.find_class(ccmod, "_CacheControl"), "_get_cache_value"))
+    setter = ast.unparse(px.find_def(px.find_class(ccmod, "_CacheControl"), "_set_cache_value"))
+    for frag in ("if type is bool:\n        return key in self", "if key not in self:\n        return None", "if (value := self[key]) is None:\n        return empty",
+                 "except ValueError:\n            return None"):
+        if frag not in getter:
+            raise px.Unsupported(f"_get_cache_value changed (missing {frag!r})")
+    for frag in ("if type is bool:\n        if value:\n            self[key] = None\n        else:\n            self.pop(key, None)",
+                 "elif value is None or value is False:\n        self.pop(key, None)", "elif value is True:\n        self[key] = None",
+                 "value = type(value)\n        self[key] = str(value)"):
+        if frag not in setter:
+            raise px.Unsupported(f"_set_cache_value changed (missing {frag!r})")
+
     # T2: is_byte_range_valid
     fn = px.find_def(http, "is_byte_range_valid")
     argn = [a.arg for a in fn.args.args]
@@ -268,6 +300,8 @@ def gen() -> None:
     text += f"Definition options_charsets : list (list N) := {strs(charsets[0])}.\n"
     text += f"Definition dict_charsets : list (list N) := {strs(charsets_d[0])}.\n"
     text += f"Definition digest_quoted_keys : list (list N) := {strs(digest_keys[0])}.\n"
+    text += "(* (key, empty: 0 None / 1 True, type: 0 bool / 1 int / 2 str) of every cache_control_property *)\n"
+    text += "Definition cc_properties : list (list N * N * N) :=\n  [" + ";\n   ".join(f"({codes(k)}, {e}, {t})" for k, e, t in cc_props) + "]%N.\n"
     for name, (p, f) in pats.items():
         nm = name.strip("_")
         text += f"Definition {nm}_text : list N := {codes(_verbose_strip(p) if f & re.X else p)}.\n"
@@ -343,6 +377,21 @@ def exn(e) -> str:
     return "err:" + ("binascii.Error" if n == "Error" else "UnicodeError" if isinstance(e, UnicodeError) else n)
 
 
+_TIMEOUTS = [0]
+
+
+def guarded(fn, secs=5.0):
+    """with_timeout with a circuit breaker: once several calls have hung (a non-terminating mutant), further
+    calls are reported as timeouts at once instead of waiting again."""
+    if _TIMEOUTS[0] >= 6:
+        raise ImplTimeout()
+    try:
+        return with_timeout(fn, secs)
+    except ImplTimeout:
+        _TIMEOUTS[0] += 1
+        raise
+
+
 class Cases:
     """collects (model line, implementation observation) pairs."""
 
@@ -354,7 +403,7 @@ class Cases:
 
     def add(self, line, thunk, canon=None, key=None, nontrivial=True, bucket=None):
         try:
-            out = with_timeout(thunk, 5.0)
+            out = guarded(thunk)
         except ImplTimeout:
             out = "timeout"
         except Exception as e:  # noqa: BLE001
@@ -393,6 +442,10 @@ def run(chk: Check) -> None:
     def rt_fail(key, what, inp):
         chk.fail(key, what, inp)
 
+    def T(fn):
+        """an implementation call of an oracle, under the wall-clock watchdog (a mutant may not terminate)."""
+        return guarded(fn)
+
     import json
     with open(os.path.join(os.path.dirname(COQ), "corpus", "C06", "headers.json"), encoding="utf-8") as fh:
         corpus = json.load(fh)
@@ -405,8 +458,8 @@ def run(chk: Check) -> None:
         for allow in (True, False):
             q = C.add(f"quote {int(allow)} {cps(v)}", lambda: cps(H.quote_header_value(v, allow_token=allow)))
         try:
-            back = H.unquote_header_value(H.quote_header_value(v))
-            back2 = H.unquote_header_value(H.quote_header_value(v, allow_token=False))
+            back = T(lambda: H.unquote_header_value(H.quote_header_value(v)))
+            back2 = T(lambda: H.unquote_header_value(H.quote_header_value(v, allow_token=False)))
         except Exception as e:  # noqa: BLE001
             back = back2 = repr(e)
         if back != v or back2 != v:
@@ -421,7 +474,7 @@ def run(chk: Check) -> None:
     for l in lists:
         hdr = C.add(f"dlist {fl(l)}", lambda: cps(H.dump_header(l)))
         try:
-            back = H.parse_list_header(H.dump_header(l))
+            back = T(lambda: H.parse_list_header(H.dump_header(l)))
             sback = list(H.parse_set_header(ds.HeaderSet(l).to_header()))
         except Exception as e:  # noqa: BLE001
             back = sback = repr(e)
@@ -436,8 +489,8 @@ def run(chk: Check) -> None:
         C.add(f"pset {cps(h)}", lambda: fl(list(H.parse_set_header(h))))
         # normal form
         try:
-            p = H.parse_list_header(h)
-            p2 = H.parse_list_header(H.dump_header(p))
+            p = T(lambda: H.parse_list_header(h))
+            p2 = T(lambda: H.parse_list_header(H.dump_header(p)))
         except Exception as e:  # noqa: BLE001
             p, p2 = None, repr(e)
         if p != p2:
@@ -453,7 +506,7 @@ def run(chk: Check) -> None:
     for d in dicts:
         C.add(f"ddict {fod(d)}", lambda: "ok " + cps(H.dump_header(d)))
         try:
-            back = H.parse_dict_header(H.dump_header(d))
+            back = T(lambda: H.parse_dict_header(H.dump_header(d)))
             ok = back == d and list(back) == list(d)
         except Exception as e:  # noqa: BLE001
             back, ok = repr(e), False
@@ -472,12 +525,12 @@ def run(chk: Check) -> None:
     for h in dh:
         C.add(f"pdict {cps(h)}", lambda: "ok " + fod(H.parse_dict_header(h)))
         try:
-            p = H.parse_dict_header(h)
+            p = T(lambda: H.parse_dict_header(h))
         except Exception:  # noqa: BLE001
             continue
         guard = all(k and set(k) <= set(H._token_chars) and "*" not in k for k in p)
         try:
-            p2 = H.parse_dict_header(H.dump_header(p))
+            p2 = T(lambda: H.parse_dict_header(H.dump_header(p)))
         except Exception as e:  # noqa: BLE001
             # whatever the keys are, re-serialising a parsed header must not blow up
             rt_fail("dict-redump-raises", f"dump_header(parse_dict_header(h)) raises {type(e).__name__}: {e}", {"header": h, "parsed": p})
@@ -504,7 +557,7 @@ def run(chk: Check) -> None:
     for hd, o in opt_cases:
         C.add(f"dopt {cps(hd)} {fod(o)}", lambda: "ok " + cps(H.dump_options_header(hd, o)))
         try:
-            back = H.parse_options_header(H.dump_options_header(hd, o))
+            back = T(lambda: H.parse_options_header(H.dump_options_header(hd, o)))
             ok = back == (hd, o) and list(back[1]) == list(o)
         except Exception as e:  # noqa: BLE001
             back, ok = repr(e), False
@@ -532,7 +585,7 @@ def run(chk: Check) -> None:
         if star and wk:
             continue  # star with weak tags: to_header is "*" by design, outside the property's domain
         try:
-            b = H.parse_etags(e.to_header())
+            b = T(lambda: H.parse_etags(e.to_header()))
             ok = (b._strong, b._weak, b.star_tag) == (e._strong, e._weak, e.star_tag)
         except Exception as ex:  # noqa: BLE001
             b, ok = repr(ex), False
@@ -543,13 +596,20 @@ def run(chk: Check) -> None:
     for h in eh:
         C.add(f"petags {cps(h)}", lambda: (lambda e: f"ok {'star' if e.star_tag else 'tags'};{fl(sorted(e._strong))};{fl(sorted(e._weak))}")(H.parse_etags(h)),
               canon=canon_etags)
+        try:
+            e1 = T(lambda: H.parse_etags(h))
+            e2 = T(lambda: H.parse_etags(e1.to_header()))
+            if (e1._strong, e1._weak, e1.star_tag) != (e2._strong, e2._weak, e2.star_tag) and not (e1.star_tag and e1._weak):
+                rt_fail("etags-normal-form", f"parse(to_header(parse h)) = {e2!r} != parse h = {e1!r}", {"header": h})
+        except Exception as ex:  # noqa: BLE001
+            rt_fail("etags-normal-form", f"re-serialising parse_etags(h) raised {ex!r}", {"header": h})
         C.add(f"uqetag {cps(h)}", lambda: (lambda r: "~" if r[0] is None else cps(r[0]) + ";" + str(int(r[1])))(H.unquote_etag(h)))
     for v in [gen_value(rng) for _ in range(n // 2)]:
         C.add(f"qetag {cps(v)} 0", lambda: "ok " + cps(H.quote_etag(v)))
         if '"' not in v and v == v.strip() and v and not v.lower().startswith("w/"):
             # If-Range with an entity tag (domain: what quote_etag accepts, read back by unquote_etag)
             try:
-                b = H.parse_if_range_header(ds.IfRange(v).to_header())
+                b = T(lambda: H.parse_if_range_header(ds.IfRange(v).to_header()))
                 ok = b.etag == v and b.date is None
             except Exception as ex:  # noqa: BLE001
                 b, ok = repr(ex), False
@@ -602,13 +662,13 @@ def run(chk: Check) -> None:
                 and (rs[0][0] >= 0 or len(rs) == 1)
             each = all(e is not None and 0 <= b < e for b, e in rs)
             if not dom and each and len(rs) > 1:
-                b = H.parse_range_header(uncps(out[3:]))
+                b = T(lambda: H.parse_range_header(uncps(out[3:])))
                 if b is None or list(b.ranges) != rs:
                     rt_fail("range-unordered", "Range(units, ranges).to_header() is not read back by parse_range_header when the ranges are not "
                             f"ascending and disjoint: {uncps(out[3:])!r} -> {b!r}", {"units": u, "ranges": [list(map(fz, x)) for x in rs]})
             if dom:
                 try:
-                    b = H.parse_range_header(uncps(out[3:]))
+                    b = T(lambda: H.parse_range_header(uncps(out[3:])))
                     ok = b is not None and b.units == u and list(b.ranges) == rs
                 except Exception as ex:  # noqa: BLE001
                     b, ok = repr(ex), False
@@ -636,7 +696,7 @@ def run(chk: Check) -> None:
         out = C.add(f"dcrange {'~' if u is None else cps(u)} {fz(a)} {fz(b)} {fz(ln)}", lambda: "ok " + cps(ds.ContentRange(u, a, b, ln).to_header()))
         if out.startswith("ok ") and u is not None and u and not any(ch.isspace() for ch in u):
             try:
-                r = H.parse_content_range_header(uncps(out[3:]))
+                r = T(lambda: H.parse_content_range_header(uncps(out[3:])))
                 ok = r is not None and (r.units, r.start, r.stop, r.length) == (u, a, b, ln)
             except Exception as ex:  # noqa: BLE001
                 r, ok = repr(ex), False
@@ -658,13 +718,13 @@ def run(chk: Check) -> None:
         out = C.add(f"dage {fz(a)}", lambda: "ok " + cps(H.dump_age(a)))
         if out.startswith("ok ") and 0 <= a <= 86400 * 1000000000 - 1:
             try:
-                b = H.parse_age(H.dump_age(a))
+                b = T(lambda: H.parse_age(H.dump_age(a)))
                 ok = b == timedelta(seconds=a)
             except Exception as ex:  # noqa: BLE001
                 b, ok = repr(ex), False
             if not ok:
                 rt_fail("age-roundtrip", f"parse_age(dump_age(a)) = {b!r}", {"age": fz(a)})
-    ah = ["0", "5", "-1", " 5 ", "+5", "1_0", "1__0", "_1", "1_", "", "a", "5.0", "9" * 4300, "9" * 4301, "86399999999999", "86400000000000", "0x10", "٣", "- 5", "--5", "1 0"] + \
+    ah = corpus["age"] + ["0", "5", "-1", " 5 ", "+5", "1_0", "1__0", "_1", "1_", "", "a", "5.0", "9" * 4300, "9" * 4301, "86399999999999", "86400000000000", "0x10", "٣", "- 5", "--5", "1 0"] + \
          [_s(rng, ["0", "1", "9", "5", "_", "-", "+", " ", "\t", "a", ".", "\xa0", "12", "000"], 0, 7) for _ in range(n)]
     for h in ah:
         if any(ord(c) > 127 and c.isdigit() for c in h):
@@ -738,6 +798,103 @@ def run(chk: Check) -> None:
             C.add(f"ccget {fod(d)} {cps(key)} {ccv(empty)} {tyname[ty]}", lambda: ccv(getattr(cls(d), name)))
         C.add(f"ccget ~ {cps(key)} {ccv(empty)} {tyname[ty]}", lambda: ccv(getattr(cls({}), name)))
 
+    # ------------------------------------------------------------ base64 and the auth schemes
+    import base64
+    for _ in range(n // 2):
+        b = bytes(rng.randrange(256) for _ in range(rng.choice([0, 1, 2, 3, 4, 5, 6, 7, 30])))
+        C.add(f"b64e {cps(b.decode('latin1'))}", lambda: cps(base64.b64encode(b).decode("ascii")))
+        if base64.b64decode(base64.b64encode(b).decode("ascii")) != b:
+            chk.broken("stdlib", "base64", f"b64decode(b64encode(b)) != b for {b!r}")
+    creds = [("user", "pass"), ("", ""), ("ü", "p:€"), ("a", ":"), ("\U0001f600", "x y"), (" ", " ")]
+    for _ in range(n // 2):
+        creds.append((gen_value(rng).replace(":", ";"), gen_value(rng)))
+    for u, pw in creds:
+        a = ds.Authorization("basic", {"username": u, "password": pw})
+        C.add(f"basic {cps(u)} {cps(pw)}", lambda: cps(a.to_header()))
+        try:
+            b = T(lambda: ds.Authorization.from_header(a.to_header()))
+            ok = b is not None and b.type == "basic" and b.username == u and b.password == pw and b.token is None
+        except Exception as ex:  # noqa: BLE001
+            b, ok = repr(ex), False
+        if not ok:
+            rt_fail("auth-basic-roundtrip", f"Authorization.from_header(to_header()) = {b!r}", {"username": u, "password": pw})
+    schemes = ["bearer", "negotiate", "x-custom", "a1", "digest", "token68"]
+    toks = ["abc", "a.b-c==", "", "dXNlcg==", "a/b+c", "é", "x y", "a=", "=", "==", "a~b_c"] + [_s(rng, TOK + "/=é", 0, 8).strip() for _ in range(n // 4)]
+    for tok in toks:
+        sch = rng.choice(schemes)
+        C.add(f"tokhdr {cps(sch)} {cps(tok)}", lambda: cps(ds.Authorization(sch, token=tok).to_header()))
+        if "=" in tok.rstrip("=") or tok != tok.strip():
+            continue
+        for cls in (ds.Authorization, ds.WWWAuthenticate):
+            try:
+                b = T(lambda: cls.from_header(cls(sch, token=tok).to_header()))
+                ok = b is not None and b.type == sch and b.token == tok and not dict(b.parameters)
+            except Exception as ex:  # noqa: BLE001
+                b, ok = repr(ex), False
+            if not ok:
+                rt_fail("auth-token-roundtrip", f"{cls.__name__}.from_header(to_header()) = {b!r}", {"scheme": sch, "token": tok})
+    for v in ["bearer", "x-custom", "a1b", "éa", "a b", "o'neil", "ABC"] + [_s(rng, "abAB1-_ .'é", 0, 7) for _ in range(n // 4)]:
+        if any(ord(c) > 127 for c in v):
+            continue        # str.title on non-ASCII letters is outside the model
+        C.add(f"title {cps(v)}", lambda: cps(v.title()))
+    # parameter schemes (implementation-level oracle; Digest quoting rule included)
+    for _ in range(n // 2):
+        sch = rng.choice(["digest", "x-custom", "negotiate"])
+        d = {}
+        for _ in range(rng.randint(1, 4)):
+            d[rng.choice(["realm", "nonce", "qop", "opaque", "domain", "algorithm", "stale"]) if rng.random() < 0.6 else gen_key(rng)] = gen_value(rng)
+        for cls in (ds.Authorization, ds.WWWAuthenticate):
+            try:
+                b = T(lambda: cls.from_header(cls(sch, dict(d)).to_header()))
+                ok = b is not None and b.type == sch and dict(b.parameters) == d and b.token is None
+            except Exception as ex:  # noqa: BLE001
+                b, ok = repr(ex), False
+            if not ok:
+                rt_fail("auth-params-roundtrip", f"{cls.__name__}.from_header(to_header()) = {b!r}", {"scheme": sch, "parameters": d})
+            chk.case(("auth-params", cls.__name__, sch, tuple(d.items())))
+
+    # ------------------------------------------------------------ dates
+    import datetime as dtm
+    dts = [dtm.datetime(2026, 1, 1), dtm.datetime(1000, 1, 1), dtm.datetime(9999, 12, 31, 23, 59, 59), dtm.datetime(2024, 2, 29, 12, 0, 0),
+           dtm.datetime(2026, 1, 1, tzinfo=dtm.timezone.utc), dtm.datetime(2026, 6, 30, 23, 59, 59, tzinfo=dtm.timezone(dtm.timedelta(hours=-12))),
+           dtm.datetime(1000, 1, 2, tzinfo=dtm.timezone(dtm.timedelta(hours=23, minutes=59))), dtm.datetime(9999, 12, 30, tzinfo=dtm.timezone(dtm.timedelta(hours=-23, minutes=-59)))]
+    for _ in range(n):
+        try:
+            d0 = dtm.datetime(rng.randint(1000, 9999), rng.randint(1, 12), rng.randint(1, 28) if rng.random() < 0.8 else rng.randint(29, 31),
+                              rng.randint(0, 23), rng.randint(0, 59), rng.randint(0, 59))
+        except ValueError:
+            continue
+        if rng.random() < 0.5:
+            off = dtm.timedelta(minutes=rng.randint(-1439, 1439), seconds=rng.choice([0, 0, 0, 30]))
+            d0 = d0.replace(tzinfo=dtm.timezone(off))
+            try:
+                d0.astimezone(dtm.timezone.utc)
+            except OverflowError:
+                continue
+            if not 1000 <= d0.astimezone(dtm.timezone.utc).year <= 9999:
+                continue
+        dts.append(d0)
+    contract_bad = 0
+    for d0 in dts:
+        u = d0.replace(tzinfo=dtm.timezone.utc) if d0.tzinfo is None else d0.astimezone(dtm.timezone.utc)
+        tt = u.timetuple()
+        C.add(f"fdate {tt[6]} {tt[2]} {tt[1]} {tt[0]} {tt[3]} {tt[4]} {tt[5]}", lambda: cps(H.http_date(d0)))
+        hdr = H.http_date(d0)
+        C.add(f"pdate {cps(hdr)}", lambda: (lambda r: "~" if r is None else f"{r.day} {r.month} {r.year} {r.hour} {r.minute} {r.second}")(H.parse_date(hdr)))
+        # the calendar contract of C06_date_roundtrip: the constructor inverts the UTC field view
+        if dtm.datetime(tt[0], tt[1], tt[2], tt[3], tt[4], tt[5], tzinfo=dtm.timezone.utc) != u or not (0 <= tt[6] < 7):
+            contract_bad += 1
+        try:
+            back = T(lambda: H.parse_date(H.http_date(d0)))
+            ok = back is not None and back.tzinfo is not None and back == u
+        except Exception as ex:  # noqa: BLE001
+            back, ok = repr(ex), False
+        if not ok:
+            rt_fail("date-roundtrip", f"parse_date(http_date(dt)) = {back!r}", {"datetime": d0.isoformat()})
+    if contract_bad:
+        chk.broken("contract", "calendar (datetime / email.utils)", f"{contract_bad} instants are not rebuilt from their UTC field tuple")
+    chk.count("dates", len(dts))
+
     # ------------------------------------------------------------ model side
     exe = chk.build_modelrun("C06")
     if exe:
@@ -759,6 +916,8 @@ def run(chk: Check) -> None:
 def main(chk: Check) -> None:
     try:
         gen()
+        from . import c07 as c07mod     # the auth round trips are stated over C07's from_header model
+        c07mod.gen()
     except px.Unsupported as e:
         chk.broken("translator", "C06/Gen.v", str(e))
     chk.forbidden_scan()
@@ -773,8 +932,59 @@ def main(chk: Check) -> None:
         "(texts pinned by C06/Gen.v), urllib.request.parse_http_list and urllib.parse.unquote: validated by differential execution",
         "str.strip / Unicode \\s = the interpreter's 29 white-space code points and str.lower on Latin-1 (both re-checked against the interpreter by the translator)",
         "int <-> str: Coq's Decimal/DecimalN conversion, with CPython's 4300-digit limit as a model constant (checked at run time)",
+        "calendar contract of C06_date_roundtrip (Section variables): datetime <-> UTC field tuple with the constructor inverting the view; "
+        "email.utils.format_datetime / parsedate_to_datetime agree with the field codec on the canonical IMF-fixdate form: both checked by the harness on every generated instant",
+        "Authorization / WWWAuthenticate.from_header are the C07 models (C07/Model.v, except clause regenerated in C07/Gen.v); str.title modelled on ASCII",
     ]
     run(chk)
     chk.finish(rule="per codec: corpus of past/edge cases, values from the property's alphabet (quote, backslash, comma, semicolon, equals, star, percent, %22, "
                     "blanks, TAB, NUL, DEL, non-ASCII, non-BMP) for dump->parse on the implementation (oracle = the property) and for model-vs-implementation "
                     "on both directions, hostile header text for every parser. Non-trivial = all; distinct by hash of the model command line.")
+
+
+def replay(rep) -> int:
+    """re-run a replay file's input on the implementation and print what happens."""
+    import json
+    import werkzeug.http as H
+    from werkzeug import datastructures as ds
+    print(json.dumps({k: rep.get(k) for k in ("property", "kind", "key", "what", "no_longer_checks")}, indent=1, default=repr))
+    inp, key = rep.get("input"), rep.get("key") or ""
+    rc = 0
+    try:
+        if key == "quote-roundtrip":
+            v = inp["value"]
+            print("quote:", repr(H.quote_header_value(v)), "unquote(quote):", repr(H.unquote_header_value(H.quote_header_value(v))), "value:", repr(v))
+        elif key in ("list-roundtrip", "set-roundtrip"):
+            l = inp["list"]
+            print("dump:", repr(H.dump_header(l)), "parse(dump):", H.parse_list_header(H.dump_header(l)), "list:", l)
+        elif key == "list-normal-form":
+            p = H.parse_list_header(inp["header"])
+            print("parse:", p, "parse(dump(parse)):", H.parse_list_header(H.dump_header(p)))
+        elif key == "dict-roundtrip":
+            d = inp["dict"]
+            print("dump:", repr(H.dump_header(d)), "parse(dump):", H.parse_dict_header(H.dump_header(d)), "dict:", d)
+        elif key in ("dict-normal-form", "dict-redump-raises"):
+            p = H.parse_dict_header(inp["header"])
+            print("parse:", p)
+            print("dump(parse):", repr(H.dump_header(p)), "parse(dump(parse)):", H.parse_dict_header(H.dump_header(p)))
+        elif key == "options-roundtrip":
+            h, o = inp["header"], inp["options"]
+            print("dump:", repr(H.dump_options_header(h, o)), "parse(dump):", H.parse_options_header(H.dump_options_header(h, o)))
+        elif key == "etags-roundtrip":
+            e = ds.ETags(inp["strong"], inp["weak"], inp["star"])
+            print("to_header:", repr(e.to_header()), "parse:", H.parse_etags(e.to_header()))
+        elif key in ("range-roundtrip", "range-unordered"):
+            r = ds.Range(inp["units"], [(int(b), None if e == "~" else int(e)) for b, e in inp["ranges"]])
+            print("to_header:", repr(r.to_header()), "parse:", H.parse_range_header(r.to_header()))
+        elif key == "content-range-roundtrip":
+            f = lambda x: None if x == "~" else int(x)  # noqa: E731
+            c = ds.ContentRange(inp["units"], f(inp["start"]), f(inp["stop"]), f(inp["length"]))
+            print("to_header:", repr(c.to_header()), "parse:", H.parse_content_range_header(c.to_header()))
+        elif key == "age-roundtrip":
+            print("dump:", H.dump_age(int(inp["age"])), "parse(dump):", H.parse_age(H.dump_age(int(inp["age"]))))
+        else:
+            print("replay input:", json.dumps(inp if inp is not None else rep.get("broken"), indent=1, default=repr)[:3000])
+    except Exception as e:  # noqa: BLE001
+        print(f"raised {type(e).__name__}: {e}")
+        rc = 1
+    return rc
